@@ -26,6 +26,8 @@ def numeric(v):
         if v < rd.MAR1_1900:
             raise Ambiguous('date before 1 March 1900')
         return rd.serial_exact(v)
+    if isinstance(v, float) and v in (float('inf'), float('-inf')):
+        return v            # an infinity from the host orders above / below every finite number (Fraction compares with it exactly)
     return Fraction(v)
 
 
